@@ -11,6 +11,10 @@
    The singly linked list of tests is the Coq list it denotes (addTest = cons); the pointer array is a list with
    bounds-checked indexing (an access outside it makes the whole run `None`); SimpleString::contains and operator== are
    the C13 models of StrStr / StrCmp on NUL-terminated buffers.  The rand() stream is scenario input.
+   A scenario is a SESSION on one registry: the first run (the scenario's own fields) and any number of further runs
+   (`s_more`), each with its own command line / API calls.  What one run leaves on the registry -- the order of the list, the
+   groupFilters_ / nameFilters_ fields, the runIgnored_ switch -- is the `rstate` the next run starts from
+   (CommandLineTestRunner::initializeTestRun = `install`).
    No proofs in this file. *)
 From Coq Require Import NArith Arith Bool List.
 From CppUVerif Require Import lib.Str C13_Model.
@@ -20,6 +24,13 @@ Local Open Scope N_scope.
 (* ------------------------------------------------------------------ data *)
 Record test := mkTest { t_id : nat; t_group : list N; t_name : list N; t_ignored : bool }.
 Record tfilter := mkFilter { f_pat : list N; f_strict : bool; f_invert : bool }.
+
+(* one run's own configuration: the command line of one CommandLineTestRunner, or one round of direct API calls *)
+Record runcfg := mkRun {
+  u_gf : list tfilter; u_nf : list tfilter; u_ri : bool; u_rev : bool; u_shuffle : bool; u_seed : N; u_rands : list N;
+  u_repeat : nat; u_route : N; u_real : bool;
+  u_list : N                    (* 0 = run the tests; 1 = -lg, 2 = -ln, 3 = -ll: list and return *)
+}.
 
 Record scenario := mkScn {
   s_tests : list test;          (* in order of registration (addTest); ids are 0,1,2,... *)
@@ -32,7 +43,8 @@ Record scenario := mkScn {
   s_rands : list N;             (* values rand() returns after srand(seed), in order *)
   s_repeat : nat;               (* -r<n> *)
   s_route : N;                  (* 0 direct API, 1 argv, 2 argv with -t/-st/-xt/-xst pairs: how the harness configures; not used by run *)
-  s_real : bool                 (* the harness lets the platform's srand/rand through (and records them) instead of scripting them *)
+  s_real : bool;                (* the harness lets the platform's srand/rand through (and records them) instead of scripting them *)
+  s_more : list runcfg          (* further runs on the SAME registry, in order, each with its own configuration *)
 }.
 
 Inductive event :=
@@ -48,7 +60,10 @@ Record rep_obs := mkRep {
   r_word : list event;          (* callback word of this repetition *)
   r_cnt : counters              (* counters of this repetition's TestResult when testsEnded is printed *)
 }.
-Record obs := mkObs { o_reps : list rep_obs; o_totals : list N (* executions of each test's body over the whole run, by id *) }.
+Record obs := mkObs {
+  o_runs : list (list rep_obs);  (* per run of the session: its repetitions (none for a listing run) *)
+  o_totals : list N              (* executions of each test's body over the whole session, by id *)
+}.
 
 (* ------------------------------------------------------------------ TestFilter::match, UtestShell::match / shouldRun *)
 Definition ok_or_false (r : res bool) : bool := match r with Ok b => b | _ => false end.
@@ -182,38 +197,80 @@ Fixpoint run_loop (gf nf : list tfilter) (ri : bool) (tests : list test) (group_
 Definition run_all_tests (gf nf : list tfilter) (ri : bool) (tests : list test) : list event * counters :=
   let '(evs, k) := run_loop gf nf ri tests true cnt0 in (ETestsStarted :: evs ++ [ETestsEnded], k).
 
-(* ------------------------------------------------------------------ the runner: reverse, then (shuffle; run)* *)
-Fixpoint repeat_loop (s : scenario) (n : nat) (reg : list test) : option (list rep_obs) :=
+(* ------------------------------------------------------------------ the runner: install, reverse, then (shuffle; run)* *)
+Definition cfg_of (s : scenario) : runcfg :=
+  mkRun (s_gf s) (s_nf s) (s_ri s) (s_rev s) (s_shuffle s) (s_seed s) (s_rands s) (s_repeat s) (s_route s) (s_real s) 0.
+Definition runs_of (s : scenario) : list runcfg := cfg_of s :: s_more s.
+
+(* what a run leaves on the registry: tests_ (the list order), groupFilters_, nameFilters_ ([] = NULL), runIgnored_ *)
+Record rstate := mkSt { st_reg : list test; st_gf : list tfilter; st_nf : list tfilter; st_ri : bool }.
+Definition st0 (ts : list test) : rstate := mkSt (registry_of ts) [] [] false.
+
+(* CommandLineTestRunner::initializeTestRun (and the API route of the harness):
+     registry_->setGroupFilters(arguments_->getGroupFilters());  registry_->setNameFilters(arguments_->getNameFilters());
+     if (arguments_->isRunIgnored()) registry_->setRunIgnored();
+   both filter fields are overwritten unconditionally (with NULL when the run gives no filter of that kind); runIgnored_ is a
+   one-way switch (nothing ever clears it, and runAllTests copies it into every shell). *)
+Definition install (st : rstate) (c : runcfg) : rstate := mkSt (st_reg st) (u_gf c) (u_nf c) (st_ri st || u_ri c).
+
+(* while (loopCount++ < repeatCount) { if (shuffling) shuffleTests(seed); printTestRun; TestResult tr; runAllTests(tr); }
+   -- the filters and the run-ignored switch are read from the REGISTRY (gf nf ri), not from the command line *)
+Fixpoint repeat_loop (c : runcfg) (gf nf : list tfilter) (ri : bool) (n : nat) (reg : list test)
+  : option (list rep_obs * list test) :=
   match n with
-  | O => Some []
+  | O => Some ([], reg)
   | S n' =>
-      match (if s_shuffle s then shuffle_tests (s_seed s) (s_rands s) reg else Some (reg, [], [])) with
+      match (if u_shuffle c then shuffle_tests (u_seed c) (u_rands c) reg else Some (reg, [], [])) with
       | None => None
       | Some (reg', seeds, drawn) =>
-          let '(w, k) := run_all_tests (s_gf s) (s_nf s) (s_ri s) reg' in
-          match repeat_loop s n' reg' with
-          | Some reps => Some (mkRep (map t_id reg') seeds drawn w k :: reps)
+          let '(w, k) := run_all_tests gf nf ri reg' in
+          match repeat_loop c gf nf ri n' reg' with
+          | Some (reps, reg'') => Some (mkRep (map t_id reg') seeds drawn w k :: reps, reg'')
           | None => None
           end
       end
   end.
+
+(* CommandLineTestRunner::runAllTests after parseArguments: initializeTestRun; a listing option lists and returns; otherwise
+   reverse once, then the repeat loop.  `inst` is initializeTestRun (the code's is `install`). *)
+Definition run_cfg_with (inst : rstate -> runcfg -> rstate) (st : rstate) (c : runcfg) : option (list rep_obs * rstate) :=
+  let st1 := inst st c in
+  if negb (u_list c =? 0) then Some ([], st1)
+  else match (if u_rev c then reverse_tests (st_reg st1) else Some (st_reg st1)) with
+       | None => None
+       | Some reg1 =>
+           match repeat_loop c (st_gf st1) (st_nf st1) (st_ri st1) (u_repeat c) reg1 with
+           | Some (reps, reg2) => Some (reps, mkSt reg2 (st_gf st1) (st_nf st1) (st_ri st1))
+           | None => None
+           end
+       end.
+Definition run_cfg := run_cfg_with install.
+
+Fixpoint run_cfgs_with (inst : rstate -> runcfg -> rstate) (st : rstate) (cs : list runcfg) : option (list (list rep_obs)) :=
+  match cs with
+  | [] => Some []
+  | c :: cs' => match run_cfg_with inst st c with
+                | Some (reps, st') => match run_cfgs_with inst st' cs' with Some rs => Some (reps :: rs) | None => None end
+                | None => None
+                end
+  end.
+Definition run_cfgs := run_cfgs_with install.
 
 Definition count_body (id : nat) (w : list event) : N :=
   N.of_nat (length (filter (fun e => match e with EBody i => Nat.eqb i id | _ => false end) w)).
 Definition totals (n : nat) (reps : list rep_obs) : list N :=
   map (fun id => fold_right (fun r acc => count_body id (r_word r) + acc) 0 reps) (seq 0 n).
 
-Definition run_opt (s : scenario) : option obs :=
-  let reg0 := registry_of (s_tests s) in
-  match (if s_rev s then reverse_tests reg0 else Some reg0) with
+Definition run_opt_with (inst : rstate -> runcfg -> rstate) (s : scenario) : option obs :=
+  match run_cfgs_with inst (st0 (s_tests s)) (runs_of s) with
+  | Some rs => Some (mkObs rs (totals (length (s_tests s)) (concat rs)))
   | None => None
-  | Some reg1 => match repeat_loop s (s_repeat s) reg1 with
-                 | Some reps => Some (mkObs reps (totals (length (s_tests s)) reps))
-                 | None => None
-                 end
   end.
-(* an access outside the pointer array would give the empty observation, which `spec` rejects whenever repeat > 0 *)
-Definition run (s : scenario) : obs := match run_opt s with Some o => o | None => mkObs [] [] end.
+Definition run_opt := run_opt_with install.
+(* an access outside the pointer array would give the empty observation, which `spec` rejects *)
+Definition run_with (inst : rstate -> runcfg -> rstate) (s : scenario) : obs :=
+  match run_opt_with inst s with Some o => o | None => mkObs [] [] end.
+Definition run (s : scenario) : obs := run_with install s.
 
 (* ------------------------------------------------------------------ the property as a model-free oracle *)
 (* a filter accepts by substring, by exact match, or by the negation of either *)
@@ -290,18 +347,42 @@ Definition rep_ok (s : scenario) (r : rep_obs) : bool :=
 Fixpoint nlist_eqb (a b : list N) : bool :=
   match a, b with [], [] => true | x :: a', y :: b' => (x =? y) && nlist_eqb a' b' | _, _ => false end.
 
+(* ---- a session: run k is judged against ITS OWN configuration.  Of the earlier runs only what the property leaves open
+   enters: the list order they left (the reversals so far, whether a shuffle happened) and whether run-ignored was ever asked
+   for (the property does not say that the switch is undone between runs, nor that it is kept: both are accepted). *)
+Definition reverses (c : runcfg) : bool := u_rev c && (u_list c =? 0).
+Definition shuffles (c : runcfg) : bool := u_shuffle c && (u_list c =? 0) && Nat.leb 1 (u_repeat c).
+Definition parity (cs : list runcfg) : bool := fold_left (fun b c => xorb b (reverses c)) cs false.
+Definition hist_ri (prev : list runcfg) : bool := existsb u_ri prev.
+(* run c, after the runs prev, read as a single-run scenario: c's own filters; ri as given *)
+Definition virt (ts : list test) (prev : list runcfg) (c : runcfg) (ri : bool) : scenario :=
+  mkScn ts (u_gf c) (u_nf c) ri (parity (prev ++ [c])) (existsb shuffles (prev ++ [c])) (u_seed c) (u_rands c) (u_repeat c) 0 (u_real c) [].
+Definition run_ok (ts : list test) (prev : list runcfg) (c : runcfg) (reps : list rep_obs) : bool :=
+  Nat.eqb (length reps) (if u_list c =? 0 then u_repeat c else 0)
+  && forallb (fun r => rep_ok (virt ts prev c (u_ri c)) r || (hist_ri prev && rep_ok (virt ts prev c true) r)) reps.
+Fixpoint runs_ok (ts : list test) (prev : list runcfg) (cs : list runcfg) (rs : list (list rep_obs)) : bool :=
+  match cs, rs with
+  | [], [] => true
+  | c :: cs', reps :: rs' => run_ok ts prev c reps && runs_ok ts (prev ++ [c]) cs' rs'
+  | _, _ => false
+  end.
+
 Definition spec (s : scenario) (o : obs) : bool :=
-  Nat.eqb (length (o_reps o)) (s_repeat s)
-  && forallb (rep_ok s) (o_reps o)
-  && nlist_eqb (o_totals o) (map (fun t => N.of_nat (s_repeat s) * b2n (executes s t)) (s_tests s)).
+  runs_ok (s_tests s) [] (runs_of s) (o_runs o)
+  && nlist_eqb (o_totals o) (totals (length (s_tests s)) (concat (o_runs o))).   (* the per-test counters agree with the words *)
 
 (* ------------------------------------------------------------------ scenarios the property speaks about *)
 Definition nonul (x : list N) : bool := forallb (fun c => negb (c =? 0) && (c <? 256)) x.
 Definition filter_ok (f : tfilter) : bool := nonul (f_pat f).
 Definition test_ok (t : test) : bool := nonul (t_group t) && nonul (t_name t).
-Definition valid (s : scenario) : bool :=
+Definition valid1 (s : scenario) : bool :=
   natlist_eqb (map t_id (s_tests s)) (seq 0 (length (s_tests s)))
   && forallb test_ok (s_tests s) && forallb filter_ok (s_gf s) && forallb filter_ok (s_nf s)
   && forallb (fun r => r <? 2147483648) (s_rands s)                    (* rand() returns 0..RAND_MAX *)
   && ((s_route s =? 0)                                                  (* what the command line can express *)
       || (Nat.leb 1 (s_repeat s) && (negb (s_shuffle s) || ((0 <? s_seed s) && (s_seed s <? UINT_MOD))))).
+Definition cfg_ok (c : runcfg) : bool :=
+  forallb filter_ok (u_gf c) && forallb filter_ok (u_nf c) && forallb (fun r => r <? 2147483648) (u_rands c)
+  && ((u_route c =? 0) || (Nat.leb 1 (u_repeat c) && (negb (u_shuffle c) || ((0 <? u_seed c) && (u_seed c <? UINT_MOD)))))
+  && (u_list c <? 4).
+Definition valid (s : scenario) : bool := valid1 s && forallb cfg_ok (s_more s).
